@@ -1158,6 +1158,11 @@ func (c *CEnv) callFn(e *Expr) cv {
 			}
 		}
 	}
+	if name == "param" {
+		// param("Key"): the integer module parameter stored under that key (the ghost function behind Subspace.Get)
+		c.x.e.declareFun("param_Int", "(String) Int")
+		return cv{V: app(SInt, "param_Int", c.term(e.Args[0]))}
+	}
 	sig, ok := specUFs[name]
 	if !ok {
 		sig, ok = c.x.specs.specFns[name]
